@@ -1075,6 +1075,10 @@ class Exec:
         if isinstance(f, ast.Name) and f.id in ("warn", "print"):
             return Conc(None)
         if isinstance(f, ast.Attribute) and f.attr == "format" and isinstance(f.value, (ast.Constant, ast.JoinedStr)):
+            if isinstance(f.value, ast.Constant) and hasattr(self.theory, "str_format") and not n.keywords:
+                r = self.theory.str_format(self, f.value.value, n.args)
+                if r is not None:
+                    return r
             return OPAQUE_STR
         fv = self.expr(f)
         args = []
